@@ -593,9 +593,15 @@ NOT_COVERED = [
     "the replay driver checks real nnx networks (Linear, Linear+LayerNorm, MLP with 6 leaves)",
     "Population.create for a symbolic population size (python list replication): bounded stand-in, sizes 1, 2, 3, 6",
     "restart / termination heuristics (is_cmaes_finished) and train_cmaes are not part of the property",
-    "CEM half of the property: contracts/C10.py",
 ]
-REPLAY = {"": "c16_cmaes"}
+REPLAY = {"": "c16_cmaes", "cem_": "c10_bounds", "optimize_cem": "c10_bounds"}
+
+# CEM half of the property ("only proposes candidates within the bounds, mean from exactly the best k, mean stays
+# within the bounds"): the contracts of cem_sample / cem_update / optimize_cem live in contracts/C10.py (they are
+# also what C10's planner clause needs) and are part of this property's check.
+from .C10 import TASKS as _C10_TASKS  # noqa: E402
+
+TASKS = TASKS + [t for t in _C10_TASKS if t.name.startswith(("cem_", "optimize_cem"))]
 EXPLANATION = (
     "CMAESConfig.create is executed symbolically for every n_params >= 1 and population >= 2 (and the default population): the recombination weights equal the documented "
     "log-rank formula, are positive, non-increasing and sum to one (sum lemmas with obliged premises), and the scalar constants satisfy the well-formed predicate WF. "
